@@ -55,10 +55,21 @@ Extra == <<
   [n |-> "volume driver", top |-> TRUE, p |-> <<"volumes", "data">>, v |-> M3("driver", S("local"), "driver_opts", M1("type", S("nfs")), "labels", M1("l", S("1")))],
   [n |-> "config content", top |-> TRUE, p |-> <<"configs", "c1">>, v |-> M1("content", S("hello\nworld"))],
   [n |-> "secret environment", top |-> TRUE, p |-> <<"secrets", "s1">>, v |-> M1("environment", S("SECVAR"))],
-  [n |-> "profiles", top |-> FALSE, p |-> <<"profiles">>, v |-> Sq1(S("debug"))]
+  [n |-> "profiles", top |-> FALSE, p |-> <<"profiles">>, v |-> Sq1(S("debug"))],
+  \* an extension whose value holds x- keys of its own, in a mapping and inside a list of mappings: user data, kept as written
+  [n |-> "nested extension", top |-> TRUE, p |-> <<"x-deploy-hints">>, v |-> M3("region", S("eu"), "x-owner", S("team-a"), "targets", Sq1(M2("zone", S("a"), "x-weight", S("heavy"))))],
+  [n |-> "nested service extension", top |-> FALSE, p |-> <<"x-hints">>, v |-> M2("x-inner", M1("x-deep", I(1)), "plain", Sq1(M1("x-in-list", B(TRUE))))]
 >>
+\* each non-empty set of top-level sections absent while the others are present
+Sections == {"networks", "volumes", "secrets", "configs"}
+RECURSIVE DropAll(_, _)
+DropAll(d, ks) == IF ks = {} THEN d ELSE LET k == CHOOSE x \in ks : TRUE IN DropAll(Del(d, k), ks \ {k})
+RECURSIVE SectNames(_)
+SectNames(ks) == IF ks = {} THEN "" ELSE LET k == CHOOSE x \in ks : TRUE IN " " \o k \o SectNames(ks \ {k})
+Partial == {[n |-> "without" \o SectNames(ks), d |-> DropAll(Skeleton, ks)] : ks \in SUBSET Sections \ {{}}}
 VARIABLE doc
-RInit == \E i \in 1..Len(Extra) : doc = [n |-> Extra[i].n, d |-> Base(Extra[i], Extra[i].v)]
+RInit == \/ \E i \in 1..Len(Extra) : doc = [n |-> Extra[i].n, d |-> Base(Extra[i], Extra[i].v)]
+         \/ doc \in Partial
 RNext == UNCHANGED doc
 RSpec == RInit /\ [][RNext]_doc
 =============================================================================
